@@ -3,7 +3,7 @@
    of the configuration the result carries; Arith.get_sizing for the sizing policies;
    Arith.unary_raw for - + abs. *)
 From Coq Require Import ZArith List Bool.
-From FxpVerif Require Import Spec SpecArith NP Store ProofsCore ProofsStore Arith ProofsArith ProofsImposed ProofsRawImposed.
+From FxpVerif Require Import Spec SpecArith NP Store ProofsCore ProofsStore Arith ProofsArith ProofsImposed ProofsRawImposed ProofsExact ProofsExactSum.
 Import ListNotations.
 Open Scope Z_scope.
 
@@ -34,6 +34,25 @@ Theorem C08_imposed_raw : forall op fx fy cxs cys ft r o,
           w_unf := existsb (unf_cond ft r) exact; w_inacc := existsb (inacc_cond ft r o) exact |}.
 Proof. exact imposed_raw. Qed.
 Print Assumptions C08_imposed_raw.
+
+(* beyond the small domain: operands of ANY width whose exact result needs more than 53 bits, imposed formats with fewer
+   fraction bits than the exact result (the raw method then rescales with exact rationals): still the quantization of the
+   exact result, all four fields (spec_wres is the record above) *)
+Theorem C08_imposed_raw_wide_sum : forall op fx fy cxs cys ft r o,
+  op <> OpMul -> 1 <= nw fx -> 1 <= nw fy -> 1 <= nw ft -> needs_exact_sum fx fy (nf ft) = true ->
+  cxs <> [] -> length cxs = length cys -> Forall (in_range fx) cxs -> Forall (in_range fy) cys ->
+  arith_raw op fx cxs fy cys ft r o
+  = Ok (spec_wres ft r o (map (fun p => exact_codes op fx (fst p) fy (snd p)) (combine cxs cys))).
+Proof. exact addsub_into_fewer_fraction_bits. Qed.
+Print Assumptions C08_imposed_raw_wide_sum.
+Theorem C08_imposed_raw_wide_product : forall fx fy cxs cys ft r o,
+  wf_op fx -> wf_op fy -> 1 <= nw ft -> nf ft - nf fx - nf fy < 0 ->
+  length cxs = length cys -> Forall (in_range fx) cxs -> Forall (in_range fy) cys ->
+  existsb (fun p => 2^53 <=? Z.abs (fst p * snd p)) (combine cxs cys) = true ->
+  arith_raw OpMul fx cxs fy cys ft r o
+  = Ok (spec_wres ft r o (map (fun p => exact_codes OpMul fx (fst p) fy (snd p)) (combine cxs cys))).
+Proof. exact mul_into_fewer_fraction_bits. Qed.
+Print Assumptions C08_imposed_raw_wide_product.
 
 (* hence both methods agree *)
 Theorem C08_methods_agree : forall op fx fy cxs cys ft r o,
